@@ -185,3 +185,33 @@ func vpH_C14_publish_in_flight() {
 	vpCover(full && !batch, "buffer full, plain Publish")
 	vpCover(!full && batch, "room left, batch")
 }
+
+// loops_exit: blocking-structure audit of the loop goroutines the CONSTRUCTORS start (heartbeat timer, validation worker,
+// PX connector, dead-peer backoff cleaner): each is run with the instance context already cancelled, its ticker holding a
+// tick, and the event loop gone (its hand-off channel accepts one more item and then nobody receives): on EVERY path
+// through its selects (the engine takes every enabled case of a select as an alternative) the goroutine returns - no
+// hand-off to the event loop is attempted without watching the context. Engine-only: which of several ready select cases
+// a native run takes cannot be steered.
+func vpH_C14_loops_exit() {
+	vpOpt("native", 0)
+	vpOpt("unwind", 6)
+	nd := vpNewNode("self", vpNodeCfg{router: "gossipsub"})
+	ps, gs := nd.ps, nd.gs
+	ps.eval = make(chan func(), 1) // (accepts one thunk - e.g. the initial heartbeat - and then nobody receives)
+	nd.cancel()
+	which := vpInt("goroutine", 0, 3)
+	blocked := false
+	switch which {
+	case 0:
+		blocked = vpBlocksWithTick(func() { gs.heartbeatTimer() }, gs.params.HeartbeatInterval)
+	case 1:
+		blocked = vpBlocksWithTick(func() { ps.val.validateWorker() }, time.Second)
+	case 2:
+		blocked = vpBlocksWithTick(func() { gs.connector() }, time.Second)
+	case 3:
+		blocked = vpBlocksWithTick(func() { ps.deadPeerBackoff.cleanupLoop(ps.ctx) }, BackoffCleanupInterval)
+	}
+	vpAssert(!blocked, "a loop goroutine started by the constructors returns once the context is cancelled, on every path through its selects, although the event loop no longer receives")
+	vpCover(which == 0, "heartbeat timer")
+	vpCover(which == 3, "backoff cleaner")
+}
